@@ -14,11 +14,16 @@
      C01_parser_is_pflag the explicit look-ahead parser used in the proof is the transcribed one
      C01_chain_pending   the flag a shorthand word leaves waiting is the same for traverse's
                          LookupArg and for the parser
+     C01_descent_agrees  (Model/Descent.v: cobra's Find with stripFlags / argsMinusFirstX, and
+                         traverse's descent) on lines where only skipped words (empty, lone dash)
+                         stand in front of each sub-command name, traverse reaches the command
+                         cobra reaches, with the same words left
+     C01_tree_slot_sound ... and the slot theorem holds there: C01 on command trees, in that fragment
    For a current word that is itself a shorthand word the model makes no claim (flag names / the
    attached value of `-s` are decided by the harness).  Not in the model (decided by the harness,
-   real traverse against real cobra on generated command trees): sub-command descent, persistent
-   flags, aliases, non-posix mode — see DESIGN.md. *)
-From CV Require Import Base.Str Model.Pflag Proofs.Pflag.
+   real traverse against real cobra on generated command trees): flag words in front of a sub-command
+   name (the known findings live there), non-posix mode — see DESIGN.md. *)
+From CV Require Import Base.Str Model.Pflag Model.Descent Proofs.Pflag Proofs.Descent.
 
 Theorem C01_slot_sound : forall fs il ws cur,
   find_short fs (byte 61) = None -> slot_sound fs il ws (traverse fs il ws cur).
@@ -38,3 +43,18 @@ Theorem C01_chain_pending : forall fs ls, find_short fs (byte 61) = None -> fora
   end = pend.
 Proof. exact chain_pending. Qed.
 Print Assumptions C01_chain_pending.
+
+Theorem C01_descent_agrees : forall c ws, path_clean c ws -> forall fuel cur, length ws < fuel ->
+  fst (t_traverse fuel c ws cur) = fst (innerfind fuel c ws) /\
+  snd (t_traverse fuel c ws cur) =
+    traverse (cflags (fst (innerfind fuel c ws))) (cil (fst (innerfind fuel c ws))) (snd (innerfind fuel c ws)) cur.
+Proof. exact descent_agrees. Qed.
+Print Assumptions C01_descent_agrees.
+
+Theorem C01_tree_slot_sound : forall c ws cur, path_clean c ws ->
+  let c' := fst (cobra_find c ws) in
+  find_short (cflags c') (byte 61) = None ->
+  fst (tree_traverse c ws cur) = c' /\
+  slot_sound (cflags c') (cil c') (snd (cobra_find c ws)) (snd (tree_traverse c ws cur)).
+Proof. exact tree_slot_sound. Qed.
+Print Assumptions C01_tree_slot_sound.
